@@ -30,11 +30,13 @@ RULE = ('plan = 2-4 clients (distinct certificate identities, optionally '
         'sessions that differ in identity and version. Distinct = distinct '
         'switch sequence (from, to, reason, file:line) x workload digest.')
 PROBES = ['session_error_path_concurrent', 'contention', 'preempt_fired',
-          'yield_at_lock_release', 'preempt_inside_engine',
+          'yield_at_lock_release', 'sessions_made_by_kmip_server', 'preempt_inside_engine',
           'preempt_inside_batch_loop', 'witness_order_search_used',
           'idless_in_batch', 'cross_owner_read', 'version_gated_op']
 REAL_VS_STUB = {
     'real': ['KmipEngine (shared)', 'KmipSession.run() in real threads',
+             'KmipServer.start/serve/_setup_connection_handler (every fifth '
+             'plan: one engine shared by the sessions the server creates)',
              'the engine\'s own lock object usage (_synchronize)',
              'auth path incl. SLUGS connector', 'SQLAlchemy+SQLite'],
     'stub': ['thread scheduling -> baton-passing scheduler driven by the '
@@ -182,7 +184,11 @@ def generate(rng, tier, index):
     return {'actors': actors, 'policies': policies,
             'seed': r.randrange(1 << 30), 'scripts': scripts,
             'preempts': preempts, 'tiebreaks': tiebreaks,
-            'release_yields': ry}
+            'release_yields': ry,
+            # every fifth plan: engine and sessions as the real KmipServer
+            # makes them (one engine shared by the sessions its connection
+            # handler creates)
+            'server': index % 5 == 4}
 
 
 def owners(path):
@@ -239,7 +245,13 @@ def admissible_orders(hist, limit):
 def execute(plan):
     probes = dict((p, 0) for p in PROBES)
     viol = []
-    W = threaded.ThreadedWorld(plan['actors'], plan['scripts'],
+    if plan.get('server'):
+        from sim import serverworld
+        mk = serverworld.server_threaded_world
+        probes['sessions_made_by_kmip_server'] += 1
+    else:
+        mk = threaded.ThreadedWorld
+    W = mk(plan['actors'], plan['scripts'],
                                preempts=plan['preempts'],
                                tiebreaks=plan['tiebreaks'],
                                user_policies=plan.get('policies'),
